@@ -242,6 +242,10 @@ def run_shard(spec):
             doc = c13.valid_program(rng, sim, d, int(rng.integers(1, 7)))
             doc["config"]["hbar"] = hbar
         run_doc(ctx, pq, doc)
+    from vf.monitors import physical as P
+
+    ctx.c["gaussian_ill_conditioned_not_judged"] = P.STATS["gaussian_ill_conditioned_not_judged"]
+    ctx.c["max_gaussian_kappa_judged"] = P.STATS["max_gaussian_kappa_judged"]
     return {"evaluations": ctx.evals, "classes": sorted(ctx.classes), "violations": ctx.violations,
             "counters": ctx.c, "samples": ctx.samples, "observations": sorted(ctx.obs)[:25]}
 
